@@ -426,6 +426,15 @@ class Folder:
                 if isinstance(st.value, ast.Constant):
                     continue
                 if isinstance(st.value, ast.Call) and ast.unparse(st.value.func).startswith('logger.'):
+                    # logging itself is ignored, but its arguments are evaluated by the running program and may raise
+                    for a_ in list(st.value.args) + [k.value for k in st.value.keywords]:
+                        if any(isinstance(x, ast.Call) for x in ast.walk(a_)):
+                            try:
+                                self._eval(a_, env, mod, ci)
+                            except FoldRaise:
+                                raise
+                            except Exception:  # noqa - the text of a log line is irrelevant; only an exception of the subject matters
+                                pass
                     continue
                 self._eval(st.value, env, mod, ci)
             elif isinstance(st, ast.Raise):
